@@ -242,9 +242,17 @@ class Extractor : public ASTConsumer {
         if (auto *M = dyn_cast<MemberExpr>(E)) {
             std::string fid = "?." + M->getMemberDecl()->getName().str();
             if (auto *FD = dyn_cast<FieldDecl>(M->getMemberDecl())) fid = recName(FD->getParent()) + "." + FD->getName().str();
-            return J::Array{"m", fid, M->isArrow() ? 1 : 0, expr(M->getBase())};
+            J::Array r{"m", fid, M->isArrow() ? 1 : 0, expr(M->getBase())};
+            if (M->getType()->isArrayType()) r.push_back("a");
+            else if (M->getType()->isPointerType()) r.push_back("p");
+            return r;
         }
-        if (auto *A = dyn_cast<ArraySubscriptExpr>(E)) { return J::Array{"i", expr(A->getBase()), expr(A->getIdx())}; }
+        if (auto *A = dyn_cast<ArraySubscriptExpr>(E)) {
+            J::Array r{"i", expr(A->getBase()), expr(A->getIdx())};
+            if (A->getType()->isArrayType()) r.push_back("a");
+            else if (A->getType()->isPointerType()) r.push_back("p");
+            return r;
+        }
         if (auto *U = dyn_cast<UnaryOperator>(E)) {
             std::string op;
             switch (U->getOpcode()) {
@@ -254,7 +262,12 @@ class Extractor : public ASTConsumer {
             case UO_PreDec: op = "--x"; break;
             default: op = UnaryOperator::getOpcodeStr(U->getOpcode()).str();
             }
-            return J::Array{"u", op, expr(U->getSubExpr())};
+            J::Array r{"u", op, expr(U->getSubExpr())};
+            if (U->getOpcode() == UO_Deref) {
+                if (U->getType()->isArrayType()) r.push_back("a");
+                else if (U->getType()->isPointerType()) r.push_back("p");
+            }
+            return r;
         }
         if (auto *B = dyn_cast<BinaryOperator>(E)) {
             std::string op = B->getOpcodeStr().str();
